@@ -119,7 +119,7 @@ func TestProp(t *testing.T) {
 		return
 	}
 	r.SetRule("one logged-in client (password or keytab, pre-authentication required) and one Config shared by 2-16 goroutines against a simulated KDC with 1-3 configured KDCs, built with -race; seeded operation mix per goroutine from {GetServiceTicket(hot/fresh SPN), Login, AffirmLogin, GetCachedTicket, Print, Diagnostics, Config.GetKDCs, Config.ResolveRealm, spnego.SetSPNEGOHeader, Destroy (last operation of one goroutine in 20% of trials)}; " +
-		"bubble mode (virtual clock: all goroutines and the renewal timers wake at the same virtual instants and run in parallel) and real-time mode (3-4 s tickets so that background renewal, expiry and requests overlap); separately 16 goroutines x GetKDCs on one Config. " +
+		"bubble mode (virtual clock: all goroutines and the renewal timers wake at the same virtual instants and run in parallel) and real-time mode (3-4 s tickets so that background renewal, expiry and requests overlap); separately 16 goroutines x GetKDCs on one Config, and one client.Cache value (the client's service-ticket cache type, pre-filled) shared by 2-16 goroutines with a seeded mix of RemoveEntry (cached / shared / never cached SPNs) and JSON. " +
 		"Oracles: race detector reports with a gokrb5 frame; (ticket,key) pairs vs the KDC issue log; GetKDCs result = keys 1..n over exactly the configured servers; Config JSON snapshot before/after; deadlock watchdog. distinct = trial interleaving signature (global order of call/return events); non-trivial = trial with >= 2 goroutines")
 	r.Assume("absence of races is claimed only for the schedules this run produced")
 	r.Note("errors returned by operations that run concurrently with Destroy are not judged (the client is being torn down); data races, wrong pairs and deadlocks are")
@@ -158,6 +158,9 @@ func TestProp(t *testing.T) {
 
 	// ---- GetKDCs alone
 	getKDCsStress(r)
+
+	// ---- one service-ticket cache value (client.Cache: RemoveEntry, JSON) shared by goroutines
+	cacheStress(r)
 
 	// ---- bubble mode
 	var wg sync.WaitGroup
